@@ -173,6 +173,37 @@ func (s storeShape) build() *workflow.Plan {
 		}
 		p.Blocks = append(p.Blocks, b)
 	}
+	// Ids need not grow with the position (plans stored through the vault directly, imported plans): in the odd variants
+	// the ids inside every container descend, and the blocks and sequences swap theirs, so that "order by id" is never
+	// the declared order.
+	if v%2 == 1 {
+		revActs := func(as []*workflow.Action) {
+			for i, j := 0, len(as)-1; i < j; i, j = i+1, j-1 {
+				as[i].ID, as[j].ID = as[j].ID, as[i].ID
+			}
+		}
+		for _, c := range []*workflow.Checks{p.BypassChecks, p.PreChecks, p.ContChecks, p.PostChecks, p.DeferredChecks} {
+			if c != nil {
+				revActs(c.Actions)
+			}
+		}
+		for i, j := 0, len(p.Blocks)-1; i < j; i, j = i+1, j-1 {
+			p.Blocks[i].ID, p.Blocks[j].ID = p.Blocks[j].ID, p.Blocks[i].ID
+		}
+		for _, b := range p.Blocks {
+			for _, c := range []*workflow.Checks{b.BypassChecks, b.PreChecks, b.ContChecks, b.PostChecks, b.DeferredChecks} {
+				if c != nil {
+					revActs(c.Actions)
+				}
+			}
+			for i, j := 0, len(b.Sequences)-1; i < j; i, j = i+1, j-1 {
+				b.Sequences[i].ID, b.Sequences[j].ID = b.Sequences[j].ID, b.Sequences[i].ID
+			}
+			for _, sq := range b.Sequences {
+				revActs(sq.Actions)
+			}
+		}
+	}
 	// what Submit does: every object knows its plan
 	for _, o := range listObjects(p) {
 		if sp, ok := o.obj.(interface{ SetPlanID(uuid.UUID) }); ok {
@@ -788,7 +819,7 @@ func init() {
 	register(&PropDef{
 		ID:    "C13",
 		Level: "exploration",
-		Rule: "plan shapes from a grammar (1-2 blocks x 1-2 sequences x 1-2 actions x {no checks, each single group at plan level, each single group at block level, all ten groups}) x field variants (meta, group id, keys, delays, concurrency, tolerance -1/0/2, timeouts, retries, three request/response type pairs, one announcing its response as a pointer); " +
+		Rule: "plan shapes from a grammar (1-2 blocks x 1-2 sequences x 1-2 actions x {no checks, each single group at plan level, each single group at block level, all ten groups}) x field variants (ids growing or descending with the position, meta, group id, keys, delays, concurrency, tolerance -1/0/2, timeouts, retries, three request/response type pairs, one announcing its response as a pointer); " +
 			"for every shape: Create, Read, every single update kind on every object, Read of a never created id, Delete, Read of the deleted id; on a small plan ALL sequences of updates up to depth 3 (4) over {Running, Completed, Failed, reset, attempts [ok] / [err] / [response+err(wrapped), another response] / cleared} x every object, with a Read after every step; a Create that FAILS (request that cannot be encoded at every action position of every shape) leaves the id unreadable and non-existent; " +
 			"oracle: structural equality (nanosecond times, typed requests/responses, wrapped errors, order) with a reference copy mutated in lock step; for both vaults when the CosmosDB fake is available; distinct_nontrivial = cases other than the minimal plan without updates",
 		Assumptions: []string{"CosmosDB is exercised over the package's own fake client only; a disagreement there counts only when traced to package code", "for CosmosDB the order of the actions inside a group is not checked: it comes from the service evaluating ORDER BY c.pos, which the fake client ignores", "an empty non-nil Meta slice and a nil one are the same definition"},
